@@ -36,10 +36,15 @@ fn main() {
         let t = std::thread::Builder::new()
             .stack_size(8 << 20)
             .spawn(move || {
-                let store = honest::build(seed);
+                // the honest store is only needed for round-trip comparisons: built on first use so
+                // that a worker restarted after an abort is ready at once
+                let mut store: Option<honest::Store> = None;
                 let es = entries::entries();
                 guard::worker_loop(|e, input, h| {
-                    let hv = if h >= 0 { Some(&*store.vals[h as usize]) } else { None };
+                    if h >= 0 && store.is_none() {
+                        store = Some(honest::build(seed));
+                    }
+                    let hv = if h >= 0 { Some(&*store.as_ref().unwrap().vals[h as usize]) } else { None };
                     guard::guarded_call(input, true, |i| (es[e].f)(i, hv))
                 });
             })
